@@ -85,7 +85,20 @@ def gen_instance(r, gdesc):
             l = low()
             if l[0] < minm or l[1] < minq:
                 extras.append([m[0], m[1], [[l[0], l[1], r.randint(3, 12)]]])
-    return {"gene": instances.gene_short(gdesc), "structure": structure, "planted": planted, "table": table, "extras": extras,
+    # refinement asked to look for variants outside the database too (`novel=True`): a substitution at an exonic position
+    # that no catalogued variant occupies, seen only in reads below the thresholds, must not become one
+    novel = False
+    if r.random() < 0.35:
+        novel = True
+        occupied = {m[0] for m in allm}
+        exonic = [p_ for p_ in gene.chr_to_ref if p_ not in occupied and (gene.region_at(p_) or (0, "x"))[1][0] == "e" and gene[p_] in "ACGT"]
+        for p_ in r.sample(exonic, min(len(exonic), r.randint(1, 2))):
+            alt_ = r.choice([c for c in "ACGT" if c != gene[p_]])
+            l = low()
+            if l[0] < minm or l[1] < minq:
+                table.append([p_, "_", [[60, 60, r.randint(20, 40)]]])
+                extras.append([p_, f"{gene[p_]}>{alt_}", [[l[0], l[1], r.randint(8, 20)]]])
+    return {"novel": novel, "gene": instances.gene_short(gdesc), "structure": structure, "planted": planted, "table": table, "extras": extras,
             "profile": prof, "max_solutions": 1, "fragments": None}
 
 
@@ -174,7 +187,7 @@ def tie(ctx):
         reqs.append({"op": "major_filter", "gene": gv, "profile": views.profile_view(plus["prof"]), "cn": views.cn_view(plus["cn_sol"]), "cov": views.cov_view(plus["cov"])})
         metas.append(("major", d, sorted(alleles), fcov))
         # minor filter tie
-        if plus["calls"]:
+        if plus["calls"] and not d.get("novel"):   # (the model of the evidence filter covers the default, novel=False)
             ms = plus["major_sols"]
             reqs.append({"op": "minor_filter", "gene": gv, "profile": views.profile_view(plus["prof"]), "last_cn": views.cn_view(plus["calls"][0]["major_sol"].cn_solution),
                          "cov": views.cov_view(plus["cov"]),
